@@ -29,6 +29,9 @@ type Runner struct {
 	// when set, called instead of Violate for a per-call mismatch inside a write transaction;
 	// returns true if the mismatch was handled (explained) and should not be reported
 	OnMismatch func(t TxSpec, i int, o Op, exp Exp, got Res) bool
+
+	// SigTag, when set, adds a qualifier to the signature of a per-call mismatch
+	SigTag func(o Op) string
 }
 
 func NewRunner(c *CaseCtx, cfg Cfg, u *Universe, class string) *Runner {
@@ -103,7 +106,11 @@ func (r *Runner) Tx(t TxSpec, expectFail bool) TxOut {
 		got := out.Res[i]
 		if ok, kind := exp.Accepts(got); !ok {
 			if r.OnMismatch == nil || !r.OnMismatch(t, i, o, exp, got) {
-				sig := "call:" + o.K + ":" + kind
+				tag := ""
+				if r.SigTag != nil {
+					tag = r.SigTag(o)
+				}
+				sig := "call:" + o.K + tag + ":" + kind
 				if got.Panic != "" {
 					sig = "panic:" + o.K + ":" + got.Panic
 				}
